@@ -62,6 +62,41 @@ CHECKS = {
         note="Process death is modelled as 'the completed syscalls survive, user-space buffers are lost'; power failure and page-cache effects are out of scope. Workloads are single-process (max_workers=1).",
         ref="DESIGN.md 3.4, 4 C08",
     ),
+    "C01": dict(
+        engine="Sky",
+        technique="TLC model checking of spec/Sky.tla (discrete sky: assignment, radii, pruning, (lo,hi] rule, per-cell weight-product sums) over every scenario of several configuration families, with the scale->angle conversion and the pruning angle taken from the real code as TLC constants; sampled scenarios and every TLC counterexample realised on the real sphere under rigid placements and measured with crosscorrelate/autocorrelate, counts compared cell by cell with TLC's exact integers",
+        text="Sky.tla places objects on a 72-slot ring (5 deg lattice) with 2-3 patch centres, 2 redshift bins, one or several (also overlapping / descending) scales in angular, physical and comoving units, weights, and checks for EVERY scenario of each family (10^3..10^5 each) that the conservative pruning of patch pairs loses no pair, that linkage is symmetric and reflexive, that the cells partition the in-scale pairs; it prints the exact expected count of every (scale, bin, patch pair) cell and the per-bin weight sums. Deviation flags (radii of one catalog only; pruning angle at the floored redshift) must produce counterexamples, which are replayed on the code. A stratified sample of scenarios of every family is created with Catalog.from_dataframe on the real sphere (equator, across RA=0, over both poles, tilted great circles) and measured; because every scale threshold lies between lattice distances the counts of cross-, auto- and data-random pairs and sum_weights1/2 must equal the model's integers exactly.",
+        note="Separations are multiples of 5 deg: geometry between lattice points (C14) is not exercised. Scenarios have 2-3 objects per catalog; separation weighting (rweight) is not covered by the exact comparison.",
+        ref="DESIGN.md 3.5, 4 C01",
+    ),
+    "C10": dict(
+        engine="Sky",
+        technique="TLC enumeration (spec/Sky.tla, BinOf/TotalsAgree) of every placement of the binned objects over all redshift cells (below, on each edge, inside each bin, above) for both closed sides; every stratum realised with redshifts exactly on the float of the edge and four implementations of the rule (build_trees, measurement sum_weights, pair counts, HistData) compared with the model",
+        text="The membership rule is one function of the spec (cell -> bin under the closed side); TLC enumerates all placements of 2(3) weighted objects over the 7 cells x 4 slots for closed=right and closed=left (12.5k scenarios each) and prints the expected per-bin, per-patch counts and weight sums. Each combination of cells is realised on real catalogs; BinnedTrees per-bin num_records/sum_weights, CorrFunc.dd.sum_weights, the pair counts and HistData.from_catalog must all equal the model, hence each other; patches or bins without objects must give zeros rather than exceptions.",
+        note="Two bins with edges (0.2, 0.5, 0.8); edge values are the floats the configuration itself holds.",
+        ref="DESIGN.md 3.5, 4 C10",
+    ),
+    "C12": dict(
+        engine="Sky",
+        technique="TLC enumeration of 3-centre scenarios (spec/Sky.tla: Nearest, Members, NumRecords, SumW, Radius, MetaDescribesPatch); realisation with every order of the centre list, in patch-index and generated-centre mode, reload on the fake multiprocessing runtime; metadata compared with the model; refusal cases for misaligned catalogs",
+        text="For every scenario of a family with three centres, single-object patches and unequal extents TLC prints per catalog and patch the record count, weight sum and radius in lattice steps. Scenarios are realised with the centres given in all 6 orders under 6 placements: keys must be 0..N-1, patch k must carry the k-th given centre, counts/weight sums equal, radius = k*delta to 1e-9, every record within the stored radius of the stored centre (independent great-circle routine), and nearest-reported-centre must reproduce the partition; the cache is reloaded with 3 workers under scrambled completion orders. Measurements must raise InconsistentPatchesError for differing patch id sets, swapped patches, centres farther apart than the radius (incl. a single-object patch of radius 0) and must accept aligned catalogs.",
+        note="k-means centres (patch_num) are not fixed by the property: only that the metadata describe the resulting patches.",
+        ref="DESIGN.md 3.5, 4 C12",
+    ),
+    "C17": dict(
+        engine="Containers",
+        technique="TLC model checking of spec/Containers.tla (container algebra, indexing, compatibility on exact integers/rationals) with every enumerated history of public operations replayed step by step on the real classes",
+        text="TLC proves the laws of the property (sum, scalar, equality, selection commuting with sampling and addition, patch-sum, iteration = indexing, accept-iff-valid) on exact rationals for all explored scenarios and histories up to depth 2 (quick) or 3 (thorough). Every one of those histories is executed on the real PatchedCounts, PatchedSumWeights, NormalisedCounts, CorrFunc, SampledData/CorrData with result, outcome class and purity of all operands compared after each step. Deviation configs reproduce each defect of the code as found as a TLC counterexample that is replayed on the code. Exhaustive within the bounds: up to 4 bins x 4 patches, count values 0-2, weights 1-2, 13 scalar classes, all ints from -n-1 to n and 11 slice forms.",
+        note="Trusted: TLC, the projection and builders in harness/containers.py (validated by corrupted-expectation demonstrations), float comparison at 1e-9 relative (counts exact). Exception types, empty selections and 0/0 cases are not judged.",
+        ref="DESIGN.md 3.6, 4 C17",
+    ),
+    "C04": dict(
+        engine="Containers",
+        technique="TLC model checking of spec/Containers.tla (estimator choice, normaliser, n(z) formula, normalisation integral on exact rationals) with every enumerated scenario replayed on the real CorrFunc.sample / RedshiftData / HistData, plus end-to-end runs on measured pair counts",
+        text="TLC checks NormaliserLaw (product of totals, half the squared total for auto, also for every leave-one-out sample), JackknifeShortcut, EstimatorLaw (Landy-Szalay with RD replaced by DR when missing, Davis-Peebles otherwise), RedshiftLaw and IntegralIsOne on exact rationals for all 7 member subsets x auto/cross x shapes x contents, and prints the expected value of every sample. Each scenario is built as real containers and CorrFunc.sample(), RedshiftData.from_corrfuncs/from_corrdata and normalised() are compared value by value and jackknife row by row; the same formulas are checked end-to-end on pair counts measured with crosscorrelate/autocorrelate for all random-catalog combinations. Member sets for which the property prescribes no formula accept 'formula or rejection'.",
+        note="Same trusted base as C17; the end-to-end reference evaluator is validated against TLC on every Sample case.",
+        ref="DESIGN.md 3.6, 4 C04",
+    ),
 }
 
 NOT_YET = "machinery for this property is not built yet in this round (planned, see DESIGN.md section 10)"
